@@ -158,6 +158,7 @@ fn generate_module_token_stream_inner(
             schema,
             resolved_query: &query,
             operation: &operation.1.name,
+            operation_id: operation.0,
             options: &options,
         }
         .to_token_stream()?;
